@@ -1,5 +1,7 @@
 use grin_chain::types::Options;
 use grin_core::core::hash::Hashed;
+use vcommon::ledger::RefLedger;
+use vcommon::snapshot::*;
 use vcommon::world::*;
 use vcommon::{Prng, Scratch};
 
@@ -10,32 +12,43 @@ fn main() {
 	let mut prng = Prng::new(1);
 	let (gen, gcoin) = w.genesis();
 	let chain = open_chain(&sc.sub("a"), &gen).unwrap();
+	let mut ledger = RefLedger::new(&gen);
 	let t = std::time::Instant::now();
 	let mut coins = vec![gcoin];
 	let mut key = 1u32;
+	let mut tip = gen.hash();
 	for i in 1..=14u64 {
-		let prev = chain.head_header().unwrap();
 		let mut txs = vec![];
-		if i == 6 {
-			let (tx, outs) = w.spend(&mut prng, &[coins[0].clone()], 2, 2_000_000, &mut key);
-			tx.validate(grin_core::core::transaction::Weighting::AsTransaction).unwrap();
+		if i == 6 || i == 9 {
+			let c = coins.remove(0);
+			let (tx, outs) = w.spend(&mut prng, &[c], 2, 2_000_000, &mut key);
 			txs.push(tx);
 			coins.extend(outs);
 		}
 		let k = w.key(key);
 		key += 1;
-		let b = build_block(&chain, &w, &mut prng, &prev, &txs, &k, PowMode::Real, 60).unwrap();
+		let mode = if i % 2 == 0 { PowMode::Real } else { PowMode::Real };
+		let b = ledger.make_block(&w, &mut prng, &tip, &txs, &k, mode, 60).unwrap();
 		coins.push(w.coin(grin_core::consensus::reward(txs.iter().map(|t| t.fee()).sum()), &k, true));
-		let h = b.hash();
+		tip = b.hash();
 		let r = chain.process_block(b, Options::NONE);
-		println!("{} {} {:?}", i, h, r.map(|t| t.map(|t| t.height)));
+		println!("{} {} {:?}", i, tip, r.map(|t| t.map(|t| t.height)));
+		let commits = all_commits(&ledger);
+		let s = snapshot(&chain, &commits).unwrap();
+		let st = ledger.state_at(&tip);
+		if let Some(d) = compare_with_ref(&s, &st) { println!("DIFF: {}", d); }
 	}
 	chain.validate(false).unwrap();
-	println!("real pow 14 blocks: {:?}", t.elapsed());
-	// skip-pow fork from height 10
-	let fork_prev = chain.get_header_by_height(10).unwrap();
+	println!("ledger-built 14 blocks: {:?}", t.elapsed());
+	// skip-pow fork from height 10 with more work
+	let fork_prev = chain.get_header_by_height(10).unwrap().hash();
 	let k = w.key(key);
-	let b = build_block(&chain, &w, &mut prng, &fork_prev, &[], &k, PowMode::Skip { difficulty: 1000 }, 30).unwrap();
+	let b = ledger.make_block(&w, &mut prng, &fork_prev, &[], &k, PowMode::Skip { difficulty: 100000 }, 30).unwrap();
+	let ft = b.hash();
 	println!("fork: {:?}", chain.process_block(b, Options::SKIP_POW).map(|t| t.map(|t| t.height)));
+	let commits = all_commits(&ledger);
+	let s = snapshot(&chain, &commits).unwrap();
+	let st = ledger.state_at(&ft);
+	println!("after reorg diff: {:?}", compare_with_ref(&s, &st));
 	println!("head {:?}", chain.head().unwrap().height);
 }
